@@ -69,6 +69,10 @@ def repo_fingerprint():
     tdir = os.path.join(COQ, "templates")
     for fn in sorted(os.listdir(tdir)) if os.path.isdir(tdir) else []:
         h.update(open(os.path.join(tdir, fn), "rb").read())
+    # the header the site extractor parses the sources against, and the order constants it maps to
+    for p in (os.path.join(VERIF, "harness", "platform", "atomic.h"), os.path.join(VERIF, "harness", "rt", "vrt.h")):
+        if os.path.exists(p):
+            h.update(open(p, "rb").read())
     return h.hexdigest()
 
 
